@@ -23,7 +23,7 @@ s = re.sub(r"`meta\.json`\)\. \d+ were detected by the checks as they stood when
            "`meta.json`). %d were detected by the checks as they stood when the seed arrived, %d were missed\nand led to the strengthening named in the last column, %d %s missed and not pursued (marked MISSED in the table: a limit of the\ncheck, not a detection); the other %d are detected now.\n\n| Seed" % (
                built, late, nmiss, "was" if nmiss == 1 else "were", len(rows) - nmiss), s, flags=re.S)
 s = re.sub(r"\d+ independently seeded defects \(.*?not detected \(§8\)\.",
-           "%d independently seeded defects (seven to eleven per property), %d of them\ndetected by the current checks – %d by the checks as they stood when the seed arrived, %d only\nafter the strengthening listed in §8; %d not detected (§8)." % (
+           "%d independently seeded defects (eight to eleven per property), %d of them\ndetected by the current checks – %d by the checks as they stood when the seed arrived, %d only\nafter the strengthening listed in §8; %d not detected (§8)." % (
                len(rows), len(rows) - nmiss, built, late, nmiss), s, flags=re.S)
 open(p, "w").write(s)
 print(len(rows), built, late, nmiss)
